@@ -135,6 +135,10 @@ fn history_body(src: &mut Src, st: &mut Stats) -> CaseResult {
     let mut handles: Vec<(usize, jmespath::Expression<'static>)> = vec![];
     let mut table: std::collections::HashMap<(usize, usize), Outcome> = Default::default();
     let mut asts: std::collections::HashMap<usize, Result<jmespath::ast::Ast, String>> = Default::default();
+    // the tree of every pooled text, taken before anything else happens on this (fresh) thread
+    for (i, e) in exprs.iter().enumerate() {
+        asts.insert(i, jmespath::parse(e).map_err(|e| format!("{:?}", e)));
+    }
     let mut log: Vec<String> = vec![];
     let mut last_failed_pair: Option<(usize, usize)> = None;
     let mut nontrivial = false;
@@ -143,7 +147,19 @@ fn history_body(src: &mut Src, st: &mut Stats) -> CaseResult {
     let case = |log: &Vec<String>, exprs: &Vec<String>, docs: &Vec<String>| json!({"history": log, "expressions": exprs, "documents": docs});
 
     for _ in 0..n_ops {
-        match src.weighted(&[4, 2, 2, 1, 12]) {
+        match src.weighted(&[4, 2, 2, 1, 12, 1]) {
+            5 => {
+                // an expression object assembled by hand whose text and tree do not belong
+                // together (text of one pooled expression, tree of another), searched once:
+                // whatever that leaves behind must not change what the text compiles to
+                let (i, j) = (src.below(exprs.len()), src.below(exprs.len()));
+                if let Ok(tree) = jmespath::parse(&exprs[j]) {
+                    log.push(format!("Expression::new(text of e{}, tree of e{})", i, j));
+                    let odd = jmespath::Expression::new(exprs[i].clone(), tree, &*jmespath::DEFAULT_RUNTIME);
+                    let d = src.below(shared.len());
+                    let _ = catch(std::panic::AssertUnwindSafe(|| odd.search(&shared[d]).is_ok()));
+                }
+            }
             0 | 1 => {
                 // compile / parse: identical tree or identical error every time
                 let i = src.below(exprs.len());
@@ -401,6 +417,96 @@ thread_local! {
     static EXECUTED: std::cell::RefCell<Vec<Vec<u8>>> = std::cell::RefCell::new(vec![]);
 }
 
+/// Long runs on one thread: hundreds to thousands of searches, a good share of
+/// them failing in the middle of a nested construct (inside an argument, a
+/// projection body, a comparison member, the left side of a pipe).  Whatever
+/// accumulates per thread (counters, pools, budgets) must not change any
+/// outcome: every pair is re-checked against its first outcome all along.
+fn long_history(src: &mut Src, st: &mut Stats, _env: &Env) -> CaseResult {
+    let mut bytes = vec![];
+    while !src.exhausted() {
+        bytes.push(src.byte());
+    }
+    let b2 = bytes.clone();
+    let h = std::thread::Builder::new().stack_size(256 << 20).spawn(move || {
+        let mut src = Src::new(&b2);
+        let failing = [
+            "[abs(s)]", "objs[*].abs(s)", "length(n) == `1`", "abs(s) | @", "map(&abs(s), objs)", "objs[?abs(s) > `1`]", "{k: nope(@)}", "not_null(z, abs(s))", "sort_by(objs, &abs(s))", "nums[::0]",
+            "[nums[0], nums[::0]]", "objs[*].[length(n)]", "to_array(abs(s))[0]", "abs(s)", "a | abs(@)", "!length(n)", "o.*.abs(@)", "strs[*].abs(@) | [0]",
+        ];
+        let fine = ["n", "objs[*].s", "a.b.c[1]", "sort_by(objs, &n)[0].s", "length(strs)", "nums[?@ > `0`]", "{k: n, l: [s, n]}", "o.*", "max(nums)", "a.b.c.d.e.f.g.h.i.j.k.l.m.n.o.p", "[[[[[[[[[[n]]]]]]]]]]", "not_null(z, z, n)"];
+        let n_expr = 4 + src.below(8);
+        let exprs: Vec<String> = (0..n_expr).map(|i| if i % 2 == 0 { src.pick(&fine).to_string() } else { src.pick(&failing).to_string() }).collect();
+        let docs: Vec<String> = (0..3).map(|_| schema_doc(&mut src).to_json()).collect();
+        let compiled: Vec<Option<jmespath::Expression<'static>>> = exprs.iter().map(|e| jmespath::compile(e).ok()).collect();
+        let vars: Vec<jmespath::Rcvar> = docs.iter().map(|d| jmespath::Rcvar::new(jmespath::Variable::from_json(d).unwrap())).collect();
+        let outcome = |i: usize, j: usize| -> String {
+            match &compiled[i] {
+                None => "does not compile".to_string(),
+                Some(c) => match c.search(&vars[j]) {
+                    Ok(v) => format!("ok {}", var_to_j(&v).to_json()),
+                    Err(e) => {
+                        let c = classify(&e);
+                        format!("err {} off={}", c.detail, c.offset)
+                    }
+                },
+            }
+        };
+        let mut first: std::collections::HashMap<(usize, usize), String> = Default::default();
+        for i in 0..exprs.len() {
+            for j in 0..docs.len() {
+                first.insert((i, j), outcome(i, j));
+            }
+        }
+        let n_ops = 300 + src.below(2200);
+        let mut failing_runs = 0usize;
+        for k in 0..n_ops {
+            // mostly the failing ones, now and then a check of everything
+            let i = if src.chance(200) { 1 + 2 * src.below(exprs.len() / 2) } else { src.below(exprs.len()) };
+            let i = i.min(exprs.len() - 1);
+            let j = src.below(docs.len());
+            let got = outcome(i, j);
+            if got.starts_with("err") {
+                failing_runs += 1;
+            }
+            if got != first[&(i, j)] {
+                return Err((format!("after {} searches on this thread ({} of them failing), {:?} on document {} gives {} (at first: {})", k, failing_runs, exprs[i], j, got, first[&(i, j)]), exprs.clone(), docs.clone(), k));
+            }
+            // a freshly compiled expression must agree as well
+            if k % 97 == 0 {
+                for (i2, e) in exprs.iter().enumerate() {
+                    if let Ok(c) = jmespath::compile(e) {
+                        let fresh = match c.search(&vars[0]) {
+                            Ok(v) => format!("ok {}", var_to_j(&v).to_json()),
+                            Err(e) => {
+                                let c = classify(&e);
+                                format!("err {} off={}", c.detail, c.offset)
+                            }
+                        };
+                        if fresh != first[&(i2, 0)] {
+                            return Err((format!("after {} searches on this thread ({} failing), a fresh compile of {:?} gives {} (at first: {})", k, failing_runs, e, fresh, first[&(i2, 0)]), exprs.clone(), docs.clone(), k));
+                        }
+                    }
+                }
+            }
+        }
+        Ok((n_ops, failing_runs))
+    });
+    st.eval();
+    match h.expect("spawn").join() {
+        Ok(Ok((n, f))) => {
+            st.class_n("long-history:searches", n as u64);
+            st.class_n("long-history:failing-searches", f as u64);
+            if f >= 100 && st.nontrivial(&format!("{:?}", &bytes[..bytes.len().min(64)])) {
+                st.sample(|| json!({"searches": n, "failing": f}));
+            }
+            Ok(())
+        }
+        Ok(Err((m, exprs, docs, k))) => Err(Failure::new("long-history", "outcome-changes-over-a-long-run", m, json!({"expressions": exprs, "documents": docs, "searches_before": k}))),
+        Err(_) => Err(Failure::new("long-history", "panic", "the history thread panicked".into(), json!({}))),
+    }
+}
+
 fn history(src: &mut Src, st: &mut Stats, _env: &Env) -> CaseResult {
     // take the whole choice sequence of this case
     let mut bytes = vec![];
@@ -497,6 +603,7 @@ pub fn property() -> Property {
         minimise: None,
         subs: vec![
             Sub::Bytes(BytesSub { name: "history", f: history, max_len: 4000, quick: Budget { threads: 8, cases: 1500 }, thorough: Budget { threads: 16, cases: 60_000 }, keep_unreproducible: true }),
+            Sub::Bytes(BytesSub { name: "long-history", f: long_history, max_len: 12000, quick: Budget { threads: 8, cases: 30 }, thorough: Budget { threads: 16, cases: 1500 }, keep_unreproducible: true }),
             Sub::Custom(CustomSub { name: "sequence", run: no_run, replay: replay_sequence }),
         ],
     }
